@@ -76,7 +76,10 @@ def main():
                 print("EXISTING TESTS FAIL WITH PATCH:\n" + out[-3000:])
             # demo
             dpath, dcmd = meta.get("demo_path"), meta.get("demo_cmd")
-            demo_files = [f for f in os.listdir(src) if f not in ("patch.diff", "meta.json")]
+            dpath = (dpath or "").split()[0].rstrip(",;") if dpath else dpath
+            if dpath and dpath.startswith("/tmp/seed/%s/wt/" % pid):
+                dpath = dpath[len("/tmp/seed/%s/wt/" % pid):]
+            demo_files = [f for f in os.listdir(src) if f not in ("patch.diff", "meta.json") and not f.endswith(".log")]
             placed = []
             for f in demo_files:
                 s = os.path.join(src, f)
@@ -146,7 +149,7 @@ def finish(result, src, pid, mid, wt):
         os.makedirs(dst + "/demo", exist_ok=True)
         shutil.copy(src + "/patch.diff", dst + "/patch.diff")
         for f in os.listdir(src):
-            if f not in ("patch.diff", "meta.json"):
+            if f not in ("patch.diff", "meta.json") and not f.endswith(".log"):
                 s = os.path.join(src, f)
                 if os.path.isdir(s):
                     shutil.copytree(s, os.path.join(dst, "demo", f), dirs_exist_ok=True)
